@@ -180,8 +180,8 @@ def apply_mutant(patch_file, tag):
     return {rel: os.path.join(root, rel) for rel in files}
 
 
-def build_overlay(cid, cfg, mutant=None):
-    tag = cid + ("-" + os.path.basename(mutant)[:-6] if mutant else "")
+def build_overlay(cid, cfg, mutant=None, novsync=False):
+    tag = cid + ("-" + os.path.basename(mutant)[:-6] if mutant else "") + ("-race" if novsync else "")
     ov, degraded = {}, []
     runtime_overlay(ov, degraded)
     # engines / fakes: virtual package tree under /repo/zzverif
@@ -204,7 +204,7 @@ def build_overlay(cid, cfg, mutant=None):
     if mutant:
         for rel, path in apply_mutant(mutant, tag).items():
             replaced[rel] = path
-    for rel in cfg.get("vsync", []):
+    for rel in ([] if novsync else cfg.get("vsync", [])):
         src = replaced.get(rel, os.path.join(REPO, rel))
         out = vsync_rewrite(src, rel, tag) if os.path.exists(src) else None
         if out is None:
@@ -349,7 +349,40 @@ def load_known():
     return json.load(open(p)).get("findings", [])
 
 
-def write_evidence(cid, cfg, tier, seed, m, wall, degraded, failures, nviol):
+def race_pass(cid, cfg):
+    """DESIGN §4.5: the harness bodies, free-running with the real sync package, under the race detector.
+    Sampling by nature: it only discharges the 'no unsynchronised access between scheduling points' assumption
+    of schedx and never decides a property; a report is recorded in the evidence, not raised as a violation."""
+    rt = cfg.get("race_tests")
+    if not rt:
+        return None
+    tag, ov, _ = build_overlay(cid, cfg, None, novsync=True)
+    res = {"runs": 0, "data_races": 0, "reports": []}
+    for pkg, test in rt.items():
+        out = os.path.join(BUILD, tag, pkg.replace("/", "_") + ".race.test")
+        r = subprocess.run([GO, "test", "-c", "-race", "-vet=off", "-overlay", ov, "-o", out, "./" + pkg], cwd=REPO, env=goenv(),
+                           capture_output=True, text=True)
+        if r.returncode != 0:
+            res["reports"].append("race build failed: " + (r.stdout + r.stderr)[-300:])
+            continue
+        env = goenv()
+        env.update(GOMAXPROCS="8", VERIF_TIER="thorough")
+        try:
+            rr = subprocess.run([out, "-test.run", "^%s$" % test, "-test.count", "1", "-test.timeout", "600s"], cwd=os.path.join(REPO, pkg),
+                                env=env, capture_output=True, text=True, timeout=700)
+            txt = rr.stdout + rr.stderr
+        except subprocess.TimeoutExpired:
+            txt = "timeout"
+        res["runs"] += 1
+        n = txt.count("WARNING: DATA RACE")
+        res["data_races"] += n
+        if n:
+            i = txt.index("WARNING: DATA RACE")
+            res["reports"].append(txt[i:i + 1500])
+    return res
+
+
+def write_evidence(cid, cfg, tier, seed, m, wall, degraded, failures, nviol, race=None):
     level = cfg["level"]
     cov = {
         "evaluations": m["evaluations"] or m["executions"] or m["transitions"],
@@ -369,6 +402,8 @@ def write_evidence(cid, cfg, tier, seed, m, wall, degraded, failures, nviol):
         "harness_failures": failures,
         "notes": sorted(set(m["notes"]))[:20],
     }
+    if race is not None:
+        cov["race_pass"] = race
     if level == "model_checking":
         cov["states"] = m["states_total"]
         cov["transitions"] = m["transitions"]
@@ -414,8 +449,13 @@ def do_check(cid, tier, mutant=None, quiet=False, replay=None):
             unmatched.append(v)
     for f in failures:
         log("harness failure:", f)
+    race = None
+    if not mutant and not replay and tier == "thorough":
+        race = race_pass(cid, cfg)
+        if race and race["data_races"]:
+            log("race pass: %d data race report(s) (assumption of the interleaving exploration NOT discharged; see evidence)" % race["data_races"])
     if not mutant:
-        write_evidence(cid, cfg, tier, seed, m, time.time() - t0, degraded, failures, len(unmatched))
+        write_evidence(cid, cfg, tier, seed, m, time.time() - t0, degraded, failures, len(unmatched), race)
     if not quiet:
         log("%s tier=%s executions=%d transitions=%d states=%d outcomes=%d exhaustive=%s wall=%.1fs" % (
             cid, tier, m["executions"] or m["evaluations"], m["transitions"], m["states_total"], len(m["outcomes"]),
